@@ -2,11 +2,11 @@ SPECIFICATION Spec
 CONSTANTS
   Mode = "scaled"
   Big = FALSE
-  MaxS = 11
+  MaxS = 10
   Alphabet = {97, 98}
   Base = 1
-  Off2N = 2
-  Len2N = 2
+  Off2N = 1
+  Len2N = 1
   Off3N = 4
   Len8N = 4
   GPS = 1
